@@ -418,5 +418,10 @@ class ReconnectLogic(zeroconf.RecordUpdateListener):
             # attempt again.
             #
             self._connect_from_zeroconf()
+            if self._connect_task is not None and self._connect_task.done():
+                # The connect attempt already ran and failed without ever
+                # suspending, we are waiting for the next attempt again
+                # and must keep accepting records.
+                return
             self._accept_zeroconf_records = False
             return
